@@ -5,7 +5,8 @@ import sprop, gen_tp, oracle_tp, scen
 
 FILES = ['theories/Base.v', 'theories/gen/Codec.v', 'theories/gen/Tp21Gen.v', 'theories/gen/CaGen.v', 'theories/gen/Tp22Gen.v', 'theories/CodecGlue.v',
          'theories/Model21.v', 'theories/Model22.v', 'theories/Replay21.v', 'theories/Replay22.v', 'proofs/CodecProofs.v', 'proofs/Flat.v',
-         'proofs/MpgProofs.v', 'proofs/PoolProofs.v', 'proofs/Tp21Seg.v', 'proofs/Tp21Resp.v', 'proofs/TimeoutProofs.v', 'proofs/Tp22Proofs.v', 'proofs/Tp22Resp.v', 'proofs/ConserveProofs.v', 'proofs/FrameLocal22.v']
+         'proofs/MpgProofs.v', 'proofs/PoolProofs.v', 'proofs/Tp21Seg.v', 'proofs/Tp21Resp.v', 'proofs/TimeoutProofs.v', 'proofs/Tp22Proofs.v', 'proofs/Tp22Resp.v', 'proofs/ConserveProofs.v', 'proofs/FrameLocal22.v',
+         'theories/SkelDefs.v', 'theories/FlowDefs.v', 'theories/gen/SkelGen.v', 'proofs/FlowProofs.v', 'proofs/OrderProofs.v']
 
 
 def gen_capacity(rng):
